@@ -88,7 +88,7 @@ fn print_report(r: &exec::Report) {
                "eq_false_pairs_same_first_element": p.eq_false_pairs_same_first_element, "pairs_compared": p.pairs_compared,
                "inner_pairs_compared": p.inner_pairs_compared, "ops_on_other_threads": p.ops_on_other_threads,
                "successes": p.successes, "failures": p.failures, "skipped_ops": p.skipped_ops,
-               "reparse_checked": p.reparse_checked, "clone_checked": p.clone_checked, "max_live_results": p.max_live_results})
+               "refills": p.refills, "same_address_and_length_new_content": p.same_address_and_length_new_content, "reparse_checked": p.reparse_checked, "clone_checked": p.clone_checked, "max_live_results": p.max_live_results})
     )
     .unwrap();
 }
@@ -205,7 +205,7 @@ fn main() {
                 thread: 0,
             };
             quiet_panics();
-            let sc = Scenario { seed: 0, heap_pre: (0, 0), threads: 1, ops: vec![Op::New { slot: 0, text }, op] };
+            let sc = Scenario { seed: 0, heap_pre: (0, 0), threads: 1, ops: vec![Op::New { slot: 0, text, reuse: false }, op] };
             let r = exec::execute(&sc, &gs, args.iter().any(|a| a == "--verbose"));
             print_report(&r);
             0
